@@ -6,6 +6,7 @@ size stat): every theorem quantifies over ALL plans, i.e. any number of simultan
 -/
 import Scalibr.Proofs.WalkTop
 import Scalibr.Proofs.WalkMore
+import Scalibr.Proofs.WalkFatal
 namespace Scalibr.Walk
 
 /-- The engine never panics: whatever the trees, fault plans, limits, options and cancellation point,
@@ -83,10 +84,17 @@ theorem C09_status_meaning (c : Cfg) (f : Faults) (root : Node) (e : Nat) :
   · rw [← herr, ← hfound]
     cases (errsOfCalls c (mustRoot c f root)).contains e <;> cases (foundOfCalls c (mustRoot c f root)).contains e <;> simp
 
-/-- Fatal on request: with `ErrorOnFSErrors`, every traversal failure that `handleFile` is told about
-is returned as an error (unless the inode limit or a cancelled context pre-empts it with their own
-error) — and errors propagate unchanged to the scan result (by construction of `walkEntries`,
-`popOnExit`, `walkPaths`, `runRoots`). -/
+/-- Fatal on request: with `ErrorOnFSErrors` (no inode limit, cancellation or extractor panic) the scan
+fails with a filesystem error EXACTLY when the walk is told about a filesystem failure — a directory that
+cannot be opened or whose listing fails, an unreadable `.gitignore` of a directory it enters, the failing
+size stat of a required file, a start path that cannot be stat'ed or does not exist (`traversalFaultScan`,
+defined on the trees and fault plans alone). For all forests, fault plans and option combinations. -/
+theorem C09_fatal (c : Cfg) (hb : FatalCfg c) (ho : GiOK c) (roots : List (Node × Faults)) :
+    (run c roots).err = (if traversalFaultScan c roots then .fs else .none) :=
+  run_fatal c hb ho roots
+
+/-- … and step-wise: every failure `handleFile` is told about is returned when errors are fatal (unless the
+inode limit or a cancelled context pre-empts it with their own error). -/
 theorem C09_fatal_step (c : Cfg) (he : c.errorOnFSErrors = true) (s : St) :
     (fserrCall c s).2 ≠ .none := by
   have hp : (prologue c s).2 = none ∨ (prologue c s).2 = some .maxInodes ∨ (prologue c s).2 = some .ctx := by
@@ -98,6 +106,10 @@ theorem C09_fatal_step (c : Cfg) (he : c.errorOnFSErrors = true) (s : St) :
   rcases hp with h | h | h <;> subst h <;> simp [he]
 
 /-! Non-vacuity -/
+example : FatalCfg { nExt := 1, required := fun _ _ => true, extract := fun _ _ => {}, errorOnFSErrors := true, giMatch := fun _ _ _ _ => false } :=
+  ⟨rfl, rfl, rfl, rfl, fun _ _ => rfl⟩
+example : traversalFaultScan { nExt := 1, required := fun _ _ => true, extract := fun _ _ => {}, errorOnFSErrors := true, giMatch := fun _ _ _ _ => false }
+    [(.dir none [("a", .dir none [("x", .file .reg 1)])], { readEntryFail := fun p k => p = ["a"] && k = 1 })] = true := by decide
 example : NoGiFaults { openFail := fun p => p = ["a"] } := by
   intro p
   have : p ++ [".gitignore"] ≠ ["a"] := by
